@@ -432,6 +432,39 @@ func (ctx *RenderContext) variableExists(name string) bool {
 	return false
 }
 
+// attributeExists reports whether obj has a member of that name - a key of a
+// map, an exported field (also a promoted one), a method without arguments -
+// without reading or calling it
+func attributeExists(obj interface{}, name string) bool {
+	rv := reflect.ValueOf(obj)
+	for rv.Kind() == reflect.Ptr {
+		if rv.IsNil() {
+			return false
+		}
+		rv = rv.Elem()
+	}
+	switch rv.Kind() {
+	case reflect.Map:
+		key := reflect.ValueOf(name)
+		if !key.Type().AssignableTo(rv.Type().Key()) {
+			return false
+		}
+		return rv.MapIndex(key).IsValid()
+	case reflect.Struct:
+		if f, ok := rv.Type().FieldByName(name); ok && f.PkgPath == "" {
+			if _, err := rv.FieldByIndexErr(f.Index); err == nil {
+				return true
+			}
+		}
+		m, ok := rv.Type().MethodByName(name)
+		if !ok {
+			m, ok = reflect.PtrTo(rv.Type()).MethodByName(name)
+		}
+		return ok && m.Type.NumIn() == 1 && !promotedThroughNil(rv, name)
+	}
+	return false
+}
+
 // promotedThroughNil reports whether the method of that name reaches the
 // struct through an embedded pointer that is nil
 func promotedThroughNil(v reflect.Value, name string) bool {
@@ -1123,9 +1156,9 @@ func (ctx *RenderContext) evaluateExpression(node Node) (interface{}, error) {
 					return rv.MapIndex(reflect.ValueOf(attrName).Convert(rv.Type().Key())).IsValid(), nil
 				}
 
-				// For other types, try to get the attribute but catch the error
-				_, err = ctx.getAttribute(obj, attrName)
-				return err == nil, nil
+				// For other types, ask the type whether it has such a member;
+				// reading the attribute would call the method behind it
+				return attributeExists(obj, attrName), nil
 			}
 
 			// Check for simple variable references
